@@ -338,3 +338,27 @@ Definition cell_oracle (isvoid : bool) (ops obs : list (list Z)) : bool :=
       && list_eqb (concat (filter is_frame_line res)) (if asy then [11; Z.of_nat w; 1; 0] else [])
   | _ => false
   end.
+
+(* ---------- exhaustive schedule enumeration (used by the generator of the thorough tier) ---------- *)
+(* All maximal schedules of a configuration, as lists of choices (choice j = the j-th enabled thread).
+   One reduction: once some resolver has taken the owner pointer, the two steps of the shared promise's destructor
+   thread (index dl: "xwait", then "dtor" finding _owner == nullptr) change nothing but its own pc; such a step is
+   taken only when no other thread is enabled.  Every other interleaving is enumerated. *)
+Fixpoint enum_sched (fuel : nat) (s : st) (dl : nat) : list (list Z) :=
+  match fuel with
+  | O => [[]]
+  | S f =>
+      let en := all_enabled s in
+      match en with
+      | [] => [[]]
+      | _ =>
+          let ok := fun i => negb (Nat.eqb i dl && negb (owner s) && Nat.ltb 1 (length en)) in
+          flat_map (fun j => let i := nth j en 0%nat in
+                             if ok i then map (cons (Z.of_nat j)) (enum_sched f (fst (tstep s i)) dl) else [])
+                   (seq 0 (length en))
+      end
+  end.
+
+Definition cell_enum (ops : list (list Z)) : list (list Z) :=
+  let s0 := init ops in
+  map (cons 9) (enum_sched 200 s0 (length (thrs s0) - 1)).
